@@ -384,7 +384,9 @@ func genC14(rng *rand.Rand, n int, thorough bool, emit func(string)) {
 			for j := 0; j < k; j++ {
 				vals = append(vals, []byte(genFieldValue(rng)))
 			}
-			emit("FLD hdr " + pick(rng, "c", "c", "s", "s", "l") + " " + hxList(vals))
+			hl := "hdr " + pick(rng, "c", "c", "s", "s", "l") + " " + hxList(vals)
+			emit("FLD " + hl)
+			emit("GFLD " + hl) // sse.Upgrade as translated (Gen/Upgrade.lean)
 		default:
 			emit("UT " + hx(genWireText(rng)))
 		}
